@@ -614,6 +614,7 @@ type runner struct {
 	prev  *tree  // dump after the previous step
 	kinds map[string]bool
 	stuck bool
+	released bool // the reader of the last overlap step had to be released early
 }
 
 func (rn *runner) open(create bool) error {
@@ -833,16 +834,47 @@ func (rn *runner) runStep(st step) (stepObs, error) {
 		}
 		ob.Before = execOps(rc, rtx.(walletdb.ReadWriteTx), st.Before)
 		snap0 := dumpTx(rtx)
-		res, ret, end, err := rn.runTx(st.Kind, st.Ops)
-		if err != nil {
+		// bbolt cannot grow its memory map while a reader is open: a commit
+		// that needs to grow waits for the reader.  Run the inner transaction
+		// on another goroutine; if it waits, release the reader (the reads
+		// after the inner transaction are then dropped from the step).
+		type txOut struct {
+			res []result
+			ret string
+			end *tree
+			err error
+		}
+		done := make(chan txOut, 1)
+		go func() {
+			res, ret, end, err := rn.runTx(st.Kind, st.Ops)
+			done <- txOut{res, ret, end, err}
+		}()
+		var to txOut
+		released := false
+		select {
+		case to = <-done:
+		case <-time.After(400 * time.Millisecond):
+			released = true
 			rtx.Rollback()
+			to = <-done
+		}
+		res, ret, end, err := to.res, to.ret, to.end, to.err
+		if err != nil {
+			if !released {
+				rtx.Rollback()
+			}
 			return ob, err
 		}
 		ob.Res, ob.Ret = res, ret
-		ob.After = execOps(rc, rtx.(walletdb.ReadWriteTx), st.After)
-		snap1 := dumpTx(rtx)
-		if err := rtx.Rollback(); err != nil {
-			return ob, err
+		snap1 := snap0
+		if released {
+			rn.released = true
+		} else {
+			ob.After = execOps(rc, rtx.(walletdb.ReadWriteTx), st.After)
+			snap1 = dumpTx(rtx)
+			if err := rtx.Rollback(); err != nil {
+				return ob, err
+			}
 		}
 		rn.merge(rc)
 		// isolation: the reader sees none of the inner transaction's changes
@@ -1152,7 +1184,7 @@ func (g *genState) body(shadow *tree, writable bool, n int) []op {
 		switch r.Pick(weights...) {
 		case 0:
 			v := g.value()
-			if r.Chance(1, 500) {
+			if r.Chance(1, 4000) {
 				k = mkhx(bytes.Repeat([]byte{0x41}, 32769))
 				g.tags["key_too_large"] = true
 			}
@@ -1190,6 +1222,11 @@ func (g *genState) body(shadow *tree, writable bool, n int) []op {
 				b.set(tentr{K: nm, B: &tree{Ents: []tentr{}}})
 			}
 		case 5:
+			if len(k.B) == 0 && big(p) && deleted[pk] {
+				// bbolt answers by the key its search stops at, which is nil on
+				// a leaf page emptied in this transaction
+				k = mkhx([]byte("a"))
+			}
 			ops = append(ops, op{P: p, O: "rm", K: &k})
 			if writable && b != nil {
 				if i := b.find(k.B); i >= 0 && b.Ents[i].B != nil {
@@ -1305,9 +1342,14 @@ func runCase(dir string, seedR *gen.R, in *c11Input, g *genState, nsteps int) (c
 		} else {
 			st = g.step(rn.prev, i)
 		}
+		rn.released = false
 		ob, err := rn.runStep(st)
 		if err != nil {
 			return cs, fmt.Errorf("step %d (%s %s): %v", i, st.T, st.Kind, err)
+		}
+		if rn.released {
+			st.After = nil
+			tags["overlap_reader_released"] = true
 		}
 		cs.In.Steps = append(cs.In.Steps, st)
 		cs.Obs.Steps = append(cs.Obs.Steps, ob)
